@@ -94,6 +94,21 @@ def check_case(case):
                 bad('erase-chain', f'{canon(mc)}.clear_features{names[:k]}.clear_features{names} gives {chain}, '
                     f'expected {canon(wm)}')
                 break
+        # the result of an erasure is a category like any other (its receiver has been printed, compared
+        # and hashed above, so anything the receiver memoised is in place): it equals and hashes as a
+        # separately built copy of the expected value, prints its own canonical text and compares equal
+        # to exactly that text
+        fresh = to_cat(wm)
+        for tag, v in (('', r), ('-chain', c.clear_features(*names[:1]).clear_features(*names))):
+            if not (v == fresh) or not (fresh == v) or hash(v) != hash(fresh) or v not in {fresh}:
+                bad('erase-value' + tag, f'{canon(mc)}.clear_features{names} is not equal to / hashes unlike a '
+                    f'separately built {canon(wm)}')
+            if str(v) != canon(wm):
+                bad('erase-str' + tag, f'{canon(mc)}.clear_features{names} prints {str(v)!r}, its canonical text '
+                    f'is {canon(wm)!r}')
+            if not (v == canon(wm)) or (wm != mc and (v == canon(mc))):
+                bad('erase-str-eq' + tag, f'{canon(mc)}.clear_features{names} (= {canon(wm)}) compared with its own '
+                    f'text gives {v == canon(wm)}, with the text {canon(mc)!r} gives {v == canon(mc)}')
         if not (r ^ c):
             bad('erase-shape', 'erasure changed more than features')
         if model_of(c.clear_features()) != mc:
